@@ -57,7 +57,7 @@ func window(obj map[string]interface{}) (w, ambiguous bool) {
 	return d > 0, false
 }
 
-// Observe runs Compute twice on obj under recover(), comparing obj with a
+// Observe runs Compute six times on obj under recover(), comparing obj with a
 // deep copy taken before.
 func Observe(obj map[string]interface{}) Obs {
 	before := CopyObj(obj)
@@ -68,6 +68,13 @@ func Observe(obj map[string]interface{}) Obs {
 	c2, r2, e2, _ := computeOnce(obj)
 	o.Unchanged = o.Unchanged && Same(before, obj)
 	o.Same = c1 == c2 && e1 == e2 && Same(r1, r2)
+	// further repetitions: an answer that depends on map iteration order or
+	// other hidden state shows up only now and then
+	for k := 0; k < 4 && o.Same; k++ {
+		ck, rk, ek, _ := computeOnce(obj)
+		o.Same = c1 == ck && e1 == ek && Same(r1, rk)
+		o.Unchanged = o.Unchanged && Same(before, obj)
+	}
 	o.Class, o.PanicText = c1, p1
 	if r1 != nil {
 		o.Status = string(r1.Status)
